@@ -378,6 +378,22 @@ func init() {
 				})
 			}
 		}
+		// non-ASCII text placed so that a multi-byte rune straddles a typical probe / buffer boundary
+		for _, B := range []int{512, 4096} {
+			for _, off := range []int{B - 2, B - 1, B} {
+				doc := "- root\n"
+				for len(doc)+len("  - pad-0000-\n") < off-len("  - ") {
+					doc += fmt.Sprintf("  - pad-%04d-\n", len(doc))
+				}
+				// the next line starts with "  - " and then x's up to the offset, then the rune
+				fill := off - len(doc) - len("  - ")
+				if fill < 0 {
+					continue
+				}
+				doc += "  - " + strings.Repeat("x", fill) + "日本語\n  - tail.go\n"
+				docs = append(docs, struct{ name, doc string }{fmt.Sprintf("utf8-rune-at-%d", off), doc})
+			}
+		}
 		var cases []c16Case
 		add := func(cs c16Case) { cs.Kind = "proc-c16"; cases = append(cases, cs) }
 		for _, d := range docs {
@@ -407,7 +423,7 @@ func init() {
 				}
 			}
 			for _, dry := range []bool{false, true} {
-				for _, exts := range [][]string{nil, {".go"}, {".go", "b"}} {
+				for _, exts := range [][]string{nil, {".go"}, {".go", "b"}, {".go", "c.go"}, {"e.go", ".go"}} {
 					var args []string
 					if dry {
 						args = append(args, "--dry-run")
